@@ -671,14 +671,14 @@ def check_state(hist):
     if cfg["alpha"] == "lorentz" and hr is not None and not v:
         wrapped_family(hr, "HyperbolicRepresentation")
 
-    # ---- Fox calculus (one-character names: fox_word_derivative works on strings)
-    if simple and cfg.get("fox", True):
+    # ---- Fox calculus (one-character names: words as strings; multi-character names: words as lists of names)
+    if cfg.get("fox", True):
         lows = model.lower_names()
         Lf = cfg.get("Lfox", L)
         fw = [w for w in words if 1 <= len(w) <= Lf]
 
         def _diffs():
-            return [rep.differential("".join(w)) for w in fw]
+            return [rep.differential("".join(w) if simple else list(w)) for w in fw]
         D = guard(v, "differential", _diffs)
         if D is not None:
             ncalls += len(fw)
@@ -709,7 +709,7 @@ def check_state(hist):
                         expb.append(acc)
                     compare(v, "fox/derivative-block", fw, D[:, :, k * n:(k + 1) * n], np.stack(expb), ex,
                             "block d/d%s of differential(w) vs rho(Fox derivative)" % g, cond=fcond)
-        e0 = guard(v, "differential(empty-word)", lambda: np.asarray(rep.differential("")))
+        e0 = guard(v, "differential(empty-word)", lambda: np.asarray(rep.differential("" if simple else [])))
         if e0 is not None and not (e0.shape == (n, n * len(lows)) and not np.any(e0 != 0)):
             v.append({"key": "fox/empty-word", "msg": "differential('') = %r, expected zeros" % (e0.tolist(),)})
 
@@ -1103,8 +1103,8 @@ def run(ctx):
                "(Representation.parse_word with parse_simple, the default of [] / element / elements), so it is in the domain only when "
                "every one of its characters is an assigned one-character generator; the multi-character generator is addressed by a "
                "list or a '*'-string")
-    ctx.assume("Fox calculus and subgroup(compute_inverse=False) only for one-character generator names "
-               "(fox_word_derivative / formal_inverse operate on strings)")
+    ctx.assume("subgroup(compute_inverse=False) only for one-character generator names (formal_inverse operates on strings); the Fox "
+               "differential of a word in multi-character generator names is requested with the word given as a list of names")
     ctx.assume("cocycle_matrix @ coboundary_matrix = 0 only for representations whose relations hold in the oracle (residual <= 1e-9)")
     ctx.tolerances["word values / derived representations"] = (
         "|got-exp| <= 1e-9 (1 + max|exp| + k max_{w=uv} |F(u)| |F(v)|) per k x k matrix (forward error bound of a matrix "
